@@ -567,7 +567,7 @@ func (s *State) atLoopHead(l *Loop) bool {
 		}
 	}
 	if ls != nil && ls.Abstract {
-		c.assume(fmt.Sprintf("loop %d of %s is abstracted - its body is not verified, only cut and havocked (%s)", l.Ordinal, c.Key, ls.AbstractWhy))
+		c.assume(fmt.Sprintf("loop %d of %s is abstracted - its body is not explored, only cut and havocked; returns from inside the body are not checked (%s)", l.Ordinal, c.Key, ls.AbstractWhy))
 	}
 	s.runGhost(fr, fmt.Sprintf("loop %d entry", l.Ordinal))
 	c.addObl(s, &Obligation{Name: fmt.Sprintf("%s/reach@loop%d", c.Key, l.Ordinal), Kind: "reach", Func: c.Key, Desc: "the loop is reachable on at least one path", Pos: pos, Path: s.Path, Goal: "false", ExpectSat: true, PathID: s.PathID})
@@ -600,6 +600,9 @@ func (s *State) atLoopHead(l *Loop) bool {
 	if ls != nil {
 		for _, inv := range ls.Invariants {
 			s.assert(evalInv(inv))
+			if ls.Abstract {
+				c.assume(fmt.Sprintf("invariant of the abstracted loop %d of %s is assumed, not proved: %s", l.Ordinal, c.Key, inv.Src))
+			}
 		}
 		if ls.Decreases != nil {
 			fr.LoopVariant[l.Head] = s.name("variant", "Int", evalDec(ls.Decreases))
@@ -816,7 +819,11 @@ func (s *State) havocLoop(l *Loop, declared map[string][]Term) {
 func (c *Ctx) loopGhosts(l *Loop) (map[string]bool, bool) {
 	out := map[string]bool{}
 	if l.ModAll {
-		return out, true
+		// code without a contract runs in the body: it may build objects whose constructors update the global ghost
+		// maps; ghost variables declared by the function under verification itself are out of its reach
+		for _, g := range c.SS.GlobalGhosts {
+			out[g.Name] = true
+		}
 	}
 	for g := range l.ModGhosts {
 		out[g] = true
@@ -866,6 +873,9 @@ func (c *Ctx) loopGhosts(l *Loop) (map[string]bool, bool) {
 		case strings.HasPrefix(a, "loop "):
 			var k int
 			fmt.Sscanf(a, "loop %d", &k)
+			if strings.HasSuffix(a, " entry") && k == l.Ordinal {
+				break // runs once, before the loop's head is reached for the first time
+			}
 			if inBody(k) {
 				out[g.Var] = true
 			}
